@@ -9,11 +9,13 @@ os.environ.setdefault("TQDM_DISABLE", "1")
 
 from harness import common as C  # noqa: E402
 from harness import dfgen as G  # noqa: E402
+from harness import matcoq as M  # noqa: E402
 
 PROP = "C04"
-HEADER = "Require Import PF.Gen.Tables PF.Model.Stats PF.Model.ConverterState.\nOpen Scope string_scope."
+HEADER = ("From PF Require Import Gen.Tables Lib.ListX Model.Ragged Model.Mapper Model.MapperSpec Model.Converter "
+          "Model.ConverterState.\nOpen Scope Z_scope.")
 MODEL_TARGETS = ["Model/ConverterState.vo"]
-SHARD = 40
+SHARD = 17
 RULE = ("materialized datasets over all nine stypes (stub embedders / tokenizer) x 1-4 converter calls on row "
         "multisets of the source frame (whole frame, singletons, repeats, reorders, arbitrary multisets; rows carrying "
         "unseen categories / unseen multicategorical tokens injected into a copy; frames without the target column) x "
@@ -32,7 +34,12 @@ TRUSTED = [
 ASSUMPTIONS = [
     "empty row selections are not drawn (the property names single rows, repeats and reorders)",
     "stub embedders / tokenizer are deterministic row-wise functions of the cell text",
-    "timestamps with format None use one unambiguous string layout, so pandas' per-call format inference is stable",
+    "timestamp strings with time_format=None are ISO ('%Y-%m-%d %H:%M:%S'): pandas infers the format per call from the "
+    "column it is given, so ambiguous (e.g. day-first) strings without an explicit format are outside the generator; "
+    "explicit formats, including day-first ones, and object / str dtypes are drawn; pd.to_datetime itself is a black "
+    "box of the model (the parsed column is an input)",
+    "text_embedded / image_embedded / text_tokenized columns are opaque in the Coq model (cell = id of its source row, "
+    "identified through the dataset's own TensorFrame); the six other stypes run the pipeline models of Model/Mapper.v",
 ]
 
 ENUM = ["numerical", "categorical", "text_embedded", "text_tokenized", "multicategorical", "sequence_numerical",
@@ -112,7 +119,7 @@ def gen_case(rng, tier):
 
 
 def generate(rng, tier):
-    n = 400 if tier == "quick" else 8000
+    n = 300 if tier == "quick" else 6000
     return [gen_case(rng, tier) for _ in range(n)]
 
 
@@ -156,6 +163,16 @@ def build_call_df(case, call, df):
     return df2
 
 
+def plain(call):
+    """a call on an unmodified selection of the source frame's rows"""
+    return not call["inject"] and not call.get("drop_feature")
+
+
+def parse_all(desc, df):
+    """the timestamp black box (pd.to_datetime, the call the mapper makes) for every timestamp column of df"""
+    return {c["name"]: M.parse_timestamps(df, c) for c in desc["cols"] if c["stype"] == "timestamp" and c["name"] in df}
+
+
 def run(case):
     desc = case["frame"]
     try:
@@ -163,7 +180,8 @@ def run(case):
         ds.materialize()
     except Exception as ex:
         return {"ok": False, "stage": "materialize", "exc": C.exc_name(ex), "msg": str(ex)[:300], "tb": C.fmt_exc()}
-    out = {"ok": True, "base": G.read_tf(ds.tensor_frame), "stats": G.read_stats(ds.col_stats), "calls": []}
+    out = {"ok": True, "base": G.read_tf(ds.tensor_frame), "stats": G.read_stats(ds.col_stats), "calls": [],
+           "parsed": parse_all(desc, ds.df)}
     frames = []
     for call in case["calls"]:
         try:
@@ -174,13 +192,24 @@ def run(case):
             frames.append(None)
             continue
         try:
+            parsed = parse_all(desc, df2)
+        except Exception:
+            parsed = None
+        try:
             tf = ds.convert_to_tensor_frame(df2)
             frames.append(tf)
-            out["calls"].append({"ok": True, "tf": G.read_tf(tf)})
+            rec = {"ok": True, "tf": G.read_tf(tf), "parsed": parsed}
+            if plain(call):
+                # the property's observation point: dataset.tensor_frame[idx]
+                try:
+                    rec["sel"] = G.read_tf(ds.tensor_frame[list(call["rows"])])
+                except Exception as ex:
+                    rec["sel"] = {"exc": C.exc_name(ex), "msg": str(ex)[:200]}
+            out["calls"].append(rec)
         except Exception as ex:
             frames.append(None)
             out["calls"].append({"ok": False, "stage": "convert", "exc": C.exc_name(ex), "msg": str(ex)[:300],
-                                 "tb": C.fmt_exc()})
+                                 "tb": C.fmt_exc(), "parsed": parsed})
     # names of every frame returned earlier, read again after all calls (they share the converter's table)
     for rec, tf in zip(out["calls"], frames):
         if tf is not None:
@@ -192,8 +221,9 @@ def run(case):
     if case["supplied"]:
         try:
             ds2, _ = G.build_dataset(desc)
-            ds2.materialize(col_stats=ds.col_stats)
-            out["supplied"] = {"ok": True, "tf": G.read_tf(ds2.tensor_frame), "stats": G.read_stats(ds2.col_stats)}
+            ds2.materialize(col_stats=copy.deepcopy(ds.col_stats))       # a copy: ds2 updates the dict it is given
+            out["supplied"] = {"ok": True, "tf": G.read_tf(ds2.tensor_frame), "stats": G.read_stats(ds2.col_stats),
+                               "stats_first_after": G.read_stats(ds.col_stats)}
         except Exception as ex:
             out["supplied"] = {"ok": False, "exc": C.exc_name(ex), "msg": str(ex)[:300], "tb": C.fmt_exc()}
     return out
@@ -276,6 +306,18 @@ def check_call(case, obs, k):
                             what=f"{tag}: row {p} of column {col['name']} ({col['stype']}) is source row {r} "
                                  f"(raw {col['cells'][r]!r}); the dataset's TensorFrame has {exp} there, the converter "
                                  f"returned {got}", expected=exp, observed=got, col=col["name"])
+    if "sel" in rec:
+        sel = rec["sel"]
+        if "exc" in sel:
+            return dict(key="tensor-frame-index-raises", what=f"{tag}: dataset.tensor_frame[rows] raised {sel['exc']}: {sel['msg']}")
+        canon = lambda t: {st: ([[sorted(c) for c in row] for row in f] if st == "multicategorical" else f)  # noqa: E731
+                           for st, f in t["feats"].items()}
+        if canon(sel) != canon(tfj) or sel["names"] != tfj["names"] or sel["num_rows"] != tfj["num_rows"]:
+            return dict(key="differs-from-tensor-frame-index", what=f"{tag}: converting df.iloc[rows] differs from "
+                        f"dataset.tensor_frame[rows]", expected=sel, observed=tfj)
+        if not call["drop_target"] and sel["y"] != tfj["y"]:
+            return dict(key="y-differs-from-tensor-frame-index", what=f"{tag}: y of the converted selection differs from "
+                        f"dataset.tensor_frame[rows].y", expected=sel["y"], observed=tfj["y"])
     if call["drop_target"] or desc["target"] is None:
         if tfj["y"] is not None:
             return dict(key="y-without-target", what=f"{tag}: frame has no target column but y = {tfj['y']}")
@@ -312,6 +354,9 @@ def oracle(case, obs):
         if s["tf"] != obs["base"]:
             return dict(key="supplied-frame", what="materialize with supplied col_stats gives a different TensorFrame "
                         "than recomputing them", expected=obs["base"], observed=s["tf"])
+        if s.get("stats_first_after") != obs["stats"]:
+            return dict(key="supplied-stats-source-changed", what="the first dataset's col_stats changed when a copy of them "
+                        "was supplied to another dataset", expected=obs["stats"], observed=s.get("stats_first_after"))
         if s["stats"] != obs["stats"]:
             return dict(key="supplied-stats", what="col_stats after materialize(col_stats=...) differ from the supplied ones",
                         expected=obs["stats"], observed=s["stats"])
@@ -404,116 +449,159 @@ def stats(cases, obss):
     return d
 
 
+def sanity(cases, obss):
+    """Fail-closed distribution check: every stype, call kind, injection kind, the embedding merge, repeated calls,
+    target-less frames, supplied statistics and the tensor_frame[idx] observation must occur."""
+    d = stats(cases, obss)
+    probs = []
+    if d["total"] and d["materialize_raised"] > 0.1 * d["total"]:
+        probs.append(f"{d['materialize_raised']} of {d['total']} datasets failed to materialize")
+    if d["calls"] and d["calls_raised"] > 0.15 * d["calls"]:
+        probs.append(f"{d['calls_raised']} of {d['calls']} converter calls raised")
+    for st in ENUM:
+        if d["stypes"].get(st, 0) == 0:
+            probs.append(f"stype {st} never drawn")
+    for k in ("all", "single", "repeat", "reorder", "multiset", "slice", "missing"):
+        if d["call_kinds"].get(k, 0) == 0:
+            probs.append(f"row selection kind {k} never drawn")
+    for k in ("unseen", "only_unseen", "mixed", "two_unseen"):
+        if d["injection_kinds"].get(k, 0) == 0:
+            probs.append(f"unseen-value kind {k} never drawn")
+    for k in ("frames_with_embedding_merge", "supplied", "calls_without_target", "calls_with_unseen"):
+        if d[k] == 0:
+            probs.append(f"{k} = 0")
+    if not any(int(k) >= 3 for k, v in d["calls_per_case"].items() if v):
+        probs.append("no case with 3 or more converter calls")
+    nsel = sum(1 for o in obss if o and o.get("ok") for rec in o["calls"] if isinstance(rec.get("sel"), dict)
+               and "exc" not in rec["sel"])
+    if nsel == 0:
+        probs.append("dataset.tensor_frame[idx] never observed")
+    return probs
+
+
 # ------------------------------------------------------------------ Coq side
-def cst(s):
-    return "st_" + s
+STUB = ("text_embedded", "image_embedded", "text_tokenized")
 
 
-def split_tokens(cell, sep):
-    if cell is None:
-        return None
-    if isinstance(cell, list):
-        return list(cell)
-    if cell.strip() == "":
-        return []
-    return [t.strip() for t in cell.split(sep)]
+def cstring(x):
+    return C.cstr(x)
 
 
-def value_ranks(case, obs):
-    """per category column: value -> integer id (rank among every value occurring in the source frame, in the
-    fitted category list or in an injected cell)"""
+def label_ids(desc):
+    lab = G.index_labels(desc["index"], desc["n"])
+    if lab is None:
+        return list(range(desc["n"]))
+    ids = {}
+    return [ids.setdefault(repr(v), len(ids)) for v in lab]
+
+
+def coq_fcol(col, cells, parsed, rows):
+    st = col["stype"]
+    if st == "numerical":
+        return "FNum " + M.plist(cells, lambda c: M.popt(c, M.pnum))
+    if st == "categorical":
+        return "FCat " + M.plist(cells, lambda c: M.popt(c, M.ppval))
+    if st == "multicategorical":
+        def cell(c):
+            if c is None:
+                return "MCMissing"
+            if isinstance(c, str):
+                return f"MCStr {M.pstr(c)}"
+            return f"MCList {M.plist(c, M.ppval)}"
+        return "FMulti true " + M.plist(cells, cell)
+    if st == "sequence_numerical":
+        return "FSeq " + M.plist(cells, lambda c: "SQMissing" if c is None else "SQList " + M.plist(c, lambda x: M.popt(x, M.pnum)))
+    if st == "timestamp":
+        return "FTime " + M.plist(parsed, lambda v: M.popt(v, M.zs))
+    if st == "embedding":
+        return "FVec " + M.plist(cells, lambda v: M.plist(v, M.pnum))
+    return "FStub " + M.plist(rows, M.zs)
+
+
+def coq_df(case, call, parsed, labels):
+    """the frame handed to the converter as a `pdataframe`"""
     desc = case["frame"]
-    out = {}
-    for col in desc["cols"]:
-        if col["stype"] not in ("categorical", "multicategorical"):
+    by = {c["name"]: c for c in desc["cols"]}
+    cols = []
+    for name in desc["col_order"]:
+        col = by[name]
+        if (call["drop_target"] and name == desc["target"]) or name == call.get("drop_feature"):
             continue
-        vals = set()
-        allcells = list(col["cells"])
-        for call in case["calls"]:
-            allcells += selected_cells(case, call, col)
-        for cell in allcells:
-            if cell is None:
-                continue
-            if col["stype"] == "categorical":
-                vals.add(cell)
-            else:
-                vals.update(split_tokens(cell, col["sep"]))
-        key = "COUNT" if col["stype"] == "categorical" else "MULTI_COUNT"
-        cats = obs["stats"][col["name"]][key][0]
-        vals.update(cats)
-        out[col["name"]] = {v: i for i, v in enumerate(sorted(vals))}
-    return out
+        cells = selected_cells(case, call, col)
+        cols.append(f"({cstring(name)}, {coq_fcol(col, cells, (parsed or {}).get(name), call['rows'])})")
+    ix = M.plist([labels[r] for r in call["rows"]], M.nat)
+    return "{| df_index := " + ix + "; df_cols := " + M.plist(cols) + " |}"
 
 
-def coq_raw(col, cell, rk, src_row):
-    if col["stype"] == "categorical":
-        return "RCat " + C.copt(cell, lambda v: C.cz(rk[v]))
-    if col["stype"] == "multicategorical":
-        return "RMulti " + C.copt(split_tokens(cell, col["sep"]), lambda l: C.clist(l, lambda v: C.cz(rk[v])))
-    return f"ROpaque {C.cz(src_row)}"
+def coq_cell(col, got, base_cell, src_row):
+    """an observed encoded cell as an `ecell`; cells of opaque columns are identified through the dataset's own frame"""
+    st = col["stype"]
+    if st in STUB:
+        return f"[SNum (NFin {M.zs(src_row)})]" if got == base_cell else "[SNum NNaN]"
+    if st == "multicategorical":
+        return M.pecell(sorted(got), True)
+    return M.pecell(got, M.is_int_stype(st))
 
 
-def coq_enc(col, got, base_cell, src_row):
-    """observed encoded cell as a model value; opaque cells are identified through the dataset's own TensorFrame"""
-    if col["stype"] == "categorical":
-        if isinstance(got, list) and len(got) == 1 and isinstance(got[0], int):
-            return f"ECat {C.cz(got[0])}"
-        return "EBad"
-    if col["stype"] == "multicategorical":
-        if isinstance(got, list) and all(isinstance(x, int) for x in got):
-            return "EMulti " + C.clist(sorted(got), C.cz)
-        return "EBad"
-    return f"EOpaque {C.cz(src_row)}" if got == base_cell else "EBad"
-
-
-def coq_session(case, obs, base, frames, by, rk):
-    """frames: list of (call description, observed tf json).  Returns Coq list of (dataframe, observation)."""
+def coq_obs(case, call, tfj, base, by):
     desc = case["frame"]
-    items = []
-    for call, tfj in frames:
-        dfcols = []
-        for name in desc["col_order"]:
-            col = by[name]
-            if (call["drop_target"] and name == desc["target"]) or name == call.get("drop_feature"):
-                continue
-            cells = selected_cells(case, call, col)
-            dfcols.append(f"({C.cstr(name)}, {C.clist(list(zip(cells, call['rows'])), lambda p: coq_raw(col, p[0], rk.get(name), p[1]))})")
-        if tfj is None:          # the implementation raised
-            items.append(f"({C.clist(dfcols)}, None)")
+    names = M.plist([s for s in ENUM if s in tfj["names"]],
+                    lambda s: f"({M.stype_ctor(s)}, {M.plist(tfj['names'][s], cstring)})")
+    feats = []
+    for s in ENUM:
+        if s not in tfj["feats"]:
             continue
-        inj = {(i["col"], i["pos"]) for i in call["inject"]}
-        # observation: names, features per (merged) stype in enum order, y
-        names = "[" + "; ".join(f"({cst(s)}, {C.clist(tfj['names'][s], C.cstr)})" for s in ENUM if s in tfj["names"]) + "]"
-        feats = []
-        for s in ENUM:
-            if s not in tfj["feats"]:
-                continue
-            cols = []
-            for j, name in enumerate(tfj["names"].get(s, [])):
-                col = by.get(name)
-                if col is None:
-                    return None
-                encs = []
-                for p, r in enumerate(call["rows"]):
-                    got = feat_cell(tfj, s, p, j)
-                    if (name, p) in inj or col["stype"] in ("categorical", "multicategorical"):
-                        encs.append(coq_enc(col, got, None, r))
-                    else:
-                        bloc = locate(base, col)
-                        bcell = feat_cell(base, bloc[0], r, bloc[1]) if bloc else None
-                        encs.append(coq_enc(col, got, bcell, r))
-                cols.append(C.clist(encs))
-            feats.append(f"({cst(s)}, {C.clist(cols)})")
-        if tfj["y"] is None:
-            y = "None"
-        else:
-            tcol = by[desc["target"]]
-            ys = []
+        cols = []
+        for j, name in enumerate(tfj["names"].get(s, [])):
+            col = by.get(name)
+            if col is None:
+                return None
+            bloc = locate(base, col)
+            encs = []
             for p, r in enumerate(call["rows"]):
-                ys.append(coq_enc(tcol, [tfj["y"][p]], [base["y"][r]] if base["y"] is not None else None, r))
-            y = f"(Some {C.clist(ys)})"
-        items.append(f"({C.clist(dfcols)}, Some (mk_obs {names} {C.clist(feats)} {y}))")
-    return C.clist(items)
+                bcell = feat_cell(base, bloc[0], r, bloc[1]) if (bloc and col["stype"] in STUB) else None
+                encs.append(coq_cell(col, feat_cell(tfj, s, p, j), bcell, r))
+            cols.append(M.plist(encs))
+        feats.append(f"({M.stype_ctor(s)}, {M.plist(cols)})")
+    if tfj["y"] is None:
+        y = "None"
+    else:
+        tcol = by[desc["target"]]
+        y = "(Some " + M.plist(tfj["y"], lambda v: M.pecell([v], M.is_int_stype(tcol["stype"]))) + ")"
+    return f"(mk_obs {names} {M.plist(feats)} {y})"
+
+
+def coq_fits(case, obs, by):
+    desc = case["frame"]
+    out = []
+    for n in desc["col_order"]:
+        c = by[n]
+        st = c["stype"]
+        if st == "categorical":
+            f = "FitCat " + M.plist(obs["stats"][n]["COUNT"][0], M.ppval)
+        elif st == "multicategorical":
+            f = f"FitMulti {M.plist(obs['stats'][n]['MULTI_COUNT'][0], M.ppval)} {M.popt(c['sep'], M.pstr)}"
+        else:
+            f = {"numerical": "FitNum", "sequence_numerical": "FitSeq", "timestamp": "FitTime",
+                 "embedding": "FitEmb"}.get(st, "FitStub")
+        out.append(f"({cstring(n)}, {f})")
+    return M.plist(out)
+
+
+def coq_stats(case, stats_json, by, drop_stub_emb):
+    """col_stats as the model's `stats` (keys present, category list, EMB_DIM), in col_order"""
+    desc = case["frame"]
+    out = []
+    for n in desc["col_order"]:
+        c = by[n]
+        st = dict(stats_json[n])
+        if drop_stub_emb and c["stype"] in ("text_embedded", "image_embedded"):
+            st.pop("EMB_DIM", None)
+        cats = st.get("COUNT", st.get("MULTI_COUNT", [[], []]))[0]
+        emb = st.get("EMB_DIM")
+        out.append(f"({cstring(n)}, {{| cs_keys := {M.plist(sorted(st), lambda k: 'stat_' + k)}; "
+                   f"cs_cats := {M.plist(cats, M.ppval)}; cs_emb := {M.popt(emb, M.nat)} |}})")
+    return M.plist(out)
 
 
 def coq_term(case, obs):
@@ -524,32 +612,52 @@ def coq_term(case, obs):
         return "false"
     desc = case["frame"]
     by = {c["name"]: c for c in desc["cols"]}
-    rk = value_ranks(case, obs)
-    cts = C.clist([by[n] for n in desc["col_order"]], lambda c: f"({C.cstr(c['name'])}, {cst(c['stype'])})")
-    target = C.copt(desc["target"], C.cstr)
-    fits = []
-    for n in desc["col_order"]:
-        c = by[n]
-        if c["stype"] == "categorical":
-            cats = obs["stats"][n]["COUNT"][0]
-            fits.append(f"({C.cstr(n)}, FitCat {C.clist(cats, lambda v: C.cz(rk[n][v]))})")
-        elif c["stype"] == "multicategorical":
-            cats = obs["stats"][n]["MULTI_COUNT"][0]
-            fits.append(f"({C.cstr(n)}, FitMulti {C.clist(cats, lambda v: C.cz(rk[n][v]))})")
-        else:
-            fits.append(f"({C.cstr(n)}, FitOpaque)")
+    labels = label_ids(desc)
+    cts = M.plist([by[n] for n in desc["col_order"]], lambda c: f"({cstring(c['name'])}, {M.stype_ctor(c['stype'])})")
+    seps = M.plist([by[n] for n in desc["col_order"] if by[n]["stype"] == "multicategorical"],
+                   lambda c: f"({cstring(c['name'])}, {M.popt(c['sep'], M.pstr)})")
+    target = M.popt(desc["target"], cstring)
+    fits = coq_fits(case, obs, by)
     whole = {"kind": "all", "rows": list(range(desc["n"])), "inject": [], "drop_target": False}
-    # session 1: materialization is the converter's first call, then the user calls
-    s1 = [(whole, obs["base"])] + [(call, rec["tf"] if rec["ok"] else None)
-                                   for call, rec in zip(case["calls"], obs["calls"])]
-    t1 = coq_session(case, obs, obs["base"], s1, by, rk)
-    if t1 is None:
+    whole_df = coq_df(case, whole, obs["parsed"], labels)
+    base_obs = coq_obs(case, whole, obs["base"], obs["base"], by)
+    if base_obs is None:
         return "false"
-    terms = [f"session_ok {cts} {target} {C.clist(fits)} {t1}"]
-    # session 2: a fresh dataset materialized with the supplied statistics
-    if case["supplied"] and obs["supplied"]["ok"]:
-        t2 = coq_session(case, obs, obs["base"], [(whole, obs["supplied"]["tf"])], by, rk)
-        if t2 is None or obs["supplied"]["stats"] != obs["stats"]:
+    # session: materialization is the converter's first call, then the user calls (None = the call raised)
+    items = [f"({whole_df}, Some {base_obs})"]
+    sel_term = None
+    for call, rec in zip(case["calls"], obs["calls"]):
+        df = coq_df(case, call, rec.get("parsed"), labels)
+        if not rec["ok"]:
+            items.append(f"({df}, None)")
+            continue
+        o = coq_obs(case, call, rec["tf"], obs["base"], by)
+        if o is None:
             return "false"
-        terms.append(f"session_ok {cts} {target} {C.clist(fits)} {t2}")
+        items.append(f"({df}, Some {o})")
+        if sel_term is None and plain(call) and not call["drop_target"] and isinstance(rec.get("sel"), dict) \
+                and "exc" not in rec["sel"] and rec["parsed"] == {k: [v[r] for r in call["rows"]]
+                                                                  for k, v in obs["parsed"].items()}:
+            # df.iloc[idx] / tensor_frame[idx] in the model (only when the timestamp black box parsed the selected
+            # cells as it parsed them inside the whole column)
+            so = coq_obs(case, call, rec["sel"], obs["base"], by)
+            if so is None:
+                return "false"
+            sel_term = (f"selection_ok {cts} {target} {fits} {whole_df} {M.plist(call['rows'], M.nat)} {df} {so}")
+    terms = [f"session_ok {cts} {target} {fits} {M.plist(items)}"]
+    if sel_term:
+        terms.append(sel_term)
+    # materialize end to end: recomputed (None) and, when drawn, with the supplied statistics
+    emb_names = obs["base"]["names"].get("embedding", [])
+    widths = M.plist([(nm, len(obs["base"]["feats"]["embedding"][0][j])) for j, nm in enumerate(emb_names)],
+                     lambda p: f"({cstring(p[0])}, {M.nat(p[1])})") if desc["n"] else "[]"
+    st_obs = coq_stats(case, obs["stats"], by, False)
+    st_pre = coq_stats(case, obs["stats"], by, True)
+    terms.append(f"materialize_ok {cts} {seps} {target} {st_pre} {widths} None {whole_df} {st_obs} {base_obs}")
+    if case["supplied"] and obs["supplied"]["ok"]:
+        o2 = coq_obs(case, whole, obs["supplied"]["tf"], obs["base"], by)
+        if o2 is None:
+            return "false"
+        st2 = coq_stats(case, obs["supplied"]["stats"], by, False)
+        terms.append(f"materialize_ok {cts} {seps} {target} [] {widths} (Some {st_obs}) {whole_df} {st2} {o2}")
     return "(" + " && ".join(terms) + ")"
